@@ -216,7 +216,7 @@ def assemble(spec, i=0):
     return ty
 
   def attach(o):
-    if inner is not None and not (isinstance(inner, bytes) and len(inner) == 0 and o.next is None):
+    if inner is not None and not (isinstance(inner, bytes) and len(inner) == 0):
       o.payload = inner
     return o
 
@@ -611,8 +611,9 @@ def judge(spec, out):
 
 
 def _variants(spec):
-  if P.has_free_payload(spec) or (spec[-1]["t"] == "raw" and "len" in spec[-1]):
-    last = spec[-1]
+  """the spec itself and, when its payload length is free, the neighbouring length of the other parity"""
+  last = spec[-1]
+  if last["t"] == "raw" and "len" in last and not last.get("fixed"):
     n = last["len"]
     m = n + 1 if n % 2 == 0 else n - 1
     return [spec, spec[:-1] + [dict(last, len=m)]]
